@@ -3,7 +3,9 @@ package checks
 import (
 	"encoding/json"
 	"fmt"
+	"path/filepath"
 	"strconv"
+	"strings"
 
 	"github.com/Vedant9500/WTF/internal/constants"
 	"github.com/Vedant9500/WTF/internal/database"
@@ -20,11 +22,25 @@ import (
 type dbSpec struct {
 	Pool    []int  `json:"pool,omitempty"`    // indices into uPool()
 	Special string `json:"special,omitempty"` // empty | identical12 | forty | shipped
+	// Personal, when set, is a notebook (indices into uTiePool()) merged in by LoadDatabaseWithPersonal.
+	Personal []int `json:"personal,omitempty"`
+}
+
+// uTiePool: distinct commands that score equally for "deploy" / "release".
+func uTiePool() []Cmd {
+	var out []Cmd
+	for _, n := range []string{"alpha", "beta", "gamma", "delta", "epsilon", "zeta"} {
+		out = append(out, Cmd{Command: "deploy " + n, Description: "Deploy and release the app", Keywords: []string{"deploy", "release"}})
+	}
+	return out
 }
 
 func (s dbSpec) String() string {
 	if s.Special != "" {
 		return s.Special
+	}
+	if s.Personal != nil {
+		return fmt.Sprintf("%v+notebook%v", s.Pool, s.Personal)
 	}
 	return fmt.Sprint(s.Pool)
 }
@@ -37,6 +53,18 @@ func (s dbSpec) cmds() []Cmd {
 		return uIdentical(12)
 	case "forty":
 		return uForty()
+	case "shortdocs":
+		// many short entries with overlapping vocabulary: long queries have more vocabulary words
+		// than a matching entry has, with 3+ shared terms of different weights (order-sensitive sums)
+		mk := func(c, d string, k ...string) Cmd { return Cmd{Command: c, Description: d, Keywords: k} }
+		return []Cmd{
+			mk("zstd -q", "compress logs fast", "rotate"), mk("savelog", "rotate nightly backup logs"), mk("logrotate -f", "rotate compress nginx logs", "rotation"),
+			mk("gzip -9", "compress files keep timestamps", "compress", "archive"), mk("tar cf", "archive many files into one tarball", "archive", "backup"),
+			mk("cron -l", "schedule nightly backup cleanup jobs", "nightly"), mk("rsync -a", "sync directories to remote backup host", "sync", "backup"),
+			mk("tail -f", "follow access logs", "logs"), mk("find -mtime", "locate old files for cleanup", "old", "cleanup"), mk("du -sh", "disk usage of directory", "disk"),
+			mk("nginx -t", "test nginx configuration", "nginx", "config"), mk("journalctl -u", "query systemd journal logs", "journal", "logs"),
+			mk("logrotate -d", "compress rotate nginx logs nightly", "logs"), mk("backup.sh", "nightly backup of logs and files", "backup", "nightly", "logs"),
+		}
 	case "sugties":
 		// words with equal fuzzy quality for "tar": suggestion ties
 		return []Cmd{{Command: "tart x", Description: "tarp tars"}, {Command: "tarn y", Description: "tare tarq"}, {Command: "tark z", Description: "tarw taru"}}
@@ -49,6 +77,17 @@ func (s dbSpec) build(c *lib.Ctx) *database.Database {
 		db, err := database.LoadDatabase(c.Repo + "/assets/commands.yml")
 		if err != nil {
 			c.Fail("shipped database does not load: %v", err)
+			return &database.Database{}
+		}
+		return db
+	}
+	if s.Personal != nil {
+		mainP, persP := filepath.Join(c.Scratch, "main.yml"), filepath.Join(c.Scratch, "notebook.yml")
+		writeYAML(mainP, s.cmds())
+		writeYAML(persP, uPick(uTiePool(), s.Personal))
+		db, err := database.LoadDatabaseWithPersonal(mainP, persP)
+		if err != nil {
+			c.Fail("main+notebook do not load: %v", err)
 			return &database.Database{}
 		}
 		return db
@@ -311,9 +350,53 @@ func c01Run(c *lib.Ctx) {
 		}
 	}
 	// fuzzy-path accounting: a dedicated pass on a few databases (cheap)
+	c01CacheChains(c)
 	c01FuzzyAccounting(c)
 	if c.Shard < 8 {
 		c01Shipped(c)
+	}
+	c01Processes(c)
+}
+
+// c01CacheChains: requests that differ only in the limit, issued one after the
+// other through ONE caching wrapper (no invalidation in between), for every
+// ordered pair of limits: the second answer must respect its own limit.
+func c01CacheChains(c *lib.Ctx) {
+	specs := []dbSpec{{Special: "identical12"}, {Special: "forty"}}
+	limits := []int{1000, 25, 12, 3, 1, 0, -1}
+	i := 0
+	for _, spec := range specs {
+		for _, q := range []string{"git files", "compress", "files", "push"} {
+			for _, p := range []c01Path{{false, false, 0}, {true, false, 0}, {true, true, -30}} {
+				i++
+				if !c.Mine(int64(i)) {
+					continue
+				}
+				db := spec.build(c)
+				for _, l1 := range limits {
+					for _, l2 := range limits {
+						for _, entry := range []string{"cached", "monitored"} {
+							cdb := database.NewMonitoredDatabase(db)
+							run := func(l int) []resItem {
+								o := Opts{Limit: l, UseNLP: p.nlp, UseFuzzy: p.fuzzy, FuzzyThreshold: p.thr}
+								if entry == "monitored" {
+									return uItems(db, cdb.SearchWithOptionsAndMonitoring(q, o))
+								}
+								return uItems(db, cdb.SearchWithOptionsAndCache(q, o))
+							}
+							run(l1)
+							items := run(l2)
+							c.Rep.Evaluations += 2
+							c.Count("cache_chain_cases", 1)
+							if bad := uWellFormed(items, effLimit(l2, 10)); bad != "" {
+								c.Violate(lib.Violation{Key: "cache-chain:" + entry, What: fmt.Sprintf("%s wrapper, db %s, query %q: after a request with limit %d, the request with limit %d got: %s", entry, spec, q, l1, l2, bad),
+									Case: sCase{DB: spec, Query: strconv.Quote(q), Opts: Opts{Limit: l2, UseNLP: p.nlp, UseFuzzy: p.fuzzy, FuzzyThreshold: p.thr}, Entry: fmt.Sprintf("chain:%s:%d", entry, l1)}, Observed: items})
+							}
+						}
+					}
+				}
+			}
+		}
 	}
 }
 
@@ -409,6 +492,26 @@ func c01Replay(c *lib.Ctx, raw json.RawMessage) []lib.Violation {
 	if json.Unmarshal(raw, &cs) != nil {
 		return nil
 	}
+	if strings.HasPrefix(cs.Entry, "chain:") {
+		parts := strings.Split(cs.Entry, ":")
+		l1, _ := strconv.Atoi(parts[2])
+		db := cs.DB.build(c)
+		cdb := database.NewMonitoredDatabase(db)
+		o1 := cs.Opts
+		o1.Limit = l1
+		var items []resItem
+		if parts[1] == "monitored" {
+			cdb.SearchWithOptionsAndMonitoring(cs.query(), o1)
+			items = uItems(db, cdb.SearchWithOptionsAndMonitoring(cs.query(), cs.Opts))
+		} else {
+			cdb.SearchWithOptionsAndCache(cs.query(), o1)
+			items = uItems(db, cdb.SearchWithOptionsAndCache(cs.query(), cs.Opts))
+		}
+		if bad := uWellFormed(items, effLimit(cs.Opts.Limit, 10)); bad != "" {
+			return []lib.Violation{{Key: "cache-chain:" + parts[1], What: bad, Case: cs, Observed: items}}
+		}
+		return nil
+	}
 	env := newC01Env(cs.DB.build(c))
 	if v, _ := c01Eval(env, cs); v != nil {
 		return []lib.Violation{*v}
@@ -419,14 +522,14 @@ func c01Replay(c *lib.Ctx, raw json.RawMessage) []lib.Violation {
 func init() {
 	lib.Register(&lib.Check{
 		ID: "C01", Level: "model_checking",
-		Rule: "full product of: databases = {empty, 12 identical entries, 40 entries} + all subsets of <=2 (quick) / <=3 (thorough) entries of the 26-entry pool; queries = 15 specials + all 1-word + every 7th (quick) / all (thorough) 2-word sequences over the 20-word alphabet (+ 3-word over 8 words, thorough); limits {-1,0,1,2,3,N,N+1,1000}; paths {lexical, NLP, fuzzy thr 0/-30, NLP+fuzzy thr 0/-30}; extras {default, pipeline-only, pipeline-boost, all-platforms, two context-boost maps, all-on}; entry points SearchUniversal and cached (hit) always, SearchWithPipelineOptions on the lexical path, Search / monitored / cached (miss) on defaults, recovery searches whenever the engine answer is empty; shipped database on 40 queries x 4 limits x 4 paths. evaluations = entry-point calls checked; non-trivial = calls with a non-empty answer",
+		Rule:      "full product of: databases = {empty, 12 identical entries, 40 entries} + all subsets of <=2 (quick) / <=3 (thorough) entries of the 28-entry pool; queries = 15 specials + all 1-word + every 7th (quick) / all (thorough) 2-word sequences over the 22-word alphabet (+ 3-word over 8 words, thorough); limits {-1,0,1,2,3,N,N+1,1000}; paths {lexical, NLP, fuzzy thr 0/-30, NLP+fuzzy thr 0/-30}; extras {default, pipeline-only, pipeline-boost, all-platforms, two context-boost maps, all-on}; entry points SearchUniversal and cached (hit) always, SearchWithPipelineOptions on the lexical path, Search / monitored / cached (miss) on defaults, recovery searches whenever the engine answer is empty; every ordered pair of limits {1000,25,12,3,1,0,-1} issued back to back through one caching / monitoring wrapper on the 12- and 40-entry databases; shipped database on 40 queries x 4 limits x 4 paths; the real binary on 3 databases x 6 queries (recovery, typo, lexical) x 5 limits x 2 formats (printed entries <= limit in force and equal to the engine's answer). evaluations = entry-point calls checked; non-trivial = calls with a non-empty answer",
 		Assume:    []string{"map iteration order pinned (sorted keys) by build overlay", "default limit: 10 for SearchUniversal-based entry points, constants.DefaultSearchLimit for SearchWithPipelineOptions", "the CLI's truncation of recovery results is checked at process level in C17"},
 		QuickSecs: 150, ThorSecs: 1500,
 		Run: c01Run, Replay: c01Replay,
 		Finish: func(m *lib.Report, tier string) string {
 			need := []string{"answered:lexical:default", "answered:nlp:default", "answered:lexical+fuzzy:default", "answered:lexical:pipeline-only", "answered:lexical:all-on",
 				"truncating_cases:lexical", "truncating_cases:nlp", "cached_hit_answered", "fuzzy_answered:no-terms", "fuzzy_answered:no-scored-document", "fuzzy_answered:at-limit",
-				"recovery_answered:score=1.0", "recovery_answered:score=0.8", "shipped_cases"}
+				"recovery_answered:score=1.0", "recovery_answered:score=0.8", "shipped_cases", "cli_runs", "cli_recovery_answered", "cache_chain_cases"}
 			for _, k := range need {
 				if m.Counters[k] == 0 && m.Exhaustive {
 					return "vacuous: counter " + k + " is zero"
